@@ -6,6 +6,7 @@ mod engine;
 mod machine;
 mod props;
 mod real;
+mod supervisor;
 mod refmodel;
 
 use engine::{Acc, Ctx};
@@ -60,6 +61,11 @@ fn main() {
         replay_dir: "/verif/replays".into(),
         threads: std::thread::available_parallelism().map(|n| n.get()).unwrap_or(4),
         started: Instant::now(),
+        hb_dir: std::env::var("MC_HB_DIR").ok(),
+        trace: std::env::var("MC_TRACE").ok().and_then(|t| {
+            let p: Vec<&str> = t.split('\t').collect();
+            if p.len() == 3 { Some((p[0].to_string(), p[1].parse().ok()?, p[2].parse().ok()?)) } else { None }
+        }),
     };
     let mut i = 3;
     while i + 1 < args.len() {
@@ -74,6 +80,11 @@ fn main() {
     }
     if ctx.out.is_empty() {
         ctx.out = format!("/tmp/mc-{}-{}.json", ctx.prop, engine::PROFILE);
+    }
+    // E3 properties run under a supervisor so that an abort, a stack overflow or a hang of the
+    // subject is a verdict with a replayable case and not a dead harness
+    if (ctx.prop == "C14" || ctx.prop == "C19") && std::env::var("MC_CHILD").is_err() {
+        std::process::exit(supervisor::supervise(&ctx, &args));
     }
     let code = props::run(&ctx);
     std::process::exit(code);
